@@ -20,7 +20,11 @@ use proptest::{
 use serde::{de::DeserializeOwned, Deserialize, Serialize};
 use serde_json::{json, Value};
 
-pub const VERIF_DIR: &str = "/verif";
+/// Root of the verification tree (evidence, corpus, replays, known findings, build/). `VERIF_DIR`
+/// overrides it for background runs from a snapshot.
+pub fn verif_dir() -> PathBuf {
+    PathBuf::from(std::env::var("VERIF_DIR").unwrap_or_else(|_| "/verif".to_string()))
+}
 
 #[derive(Clone, Copy, Debug, PartialEq, Eq)]
 pub enum Tier {
@@ -306,7 +310,7 @@ pub struct Known {
 impl Known {
     pub fn load() -> Known {
         let mut k = Known::default();
-        let p = Path::new(VERIF_DIR).join("known_findings.txt");
+        let p = verif_dir().join("known_findings.txt");
         if let Ok(text) = std::fs::read_to_string(p) {
             for line in text.lines() {
                 let line = line.trim();
@@ -358,7 +362,7 @@ pub struct CaseFile {
 }
 
 pub fn write_replay(id: &str, case: &Value, seed: u64, f: &Failure) -> String {
-    let dir = Path::new(VERIF_DIR).join("replays").join(id);
+    let dir = verif_dir().join("replays").join(id);
     let _ = std::fs::create_dir_all(&dir);
     let h = hash64(&serde_json::to_string(case).unwrap_or_default());
     let path = dir.join(format!("{:016x}.json", h));
@@ -511,7 +515,7 @@ where
 
         // Shard 0 replays the committed corpus first.
         if env.shard == 0 {
-            let dir = Path::new(VERIF_DIR).join("corpus").join(self.id);
+            let dir = verif_dir().join("corpus").join(self.id);
             let mut files: Vec<PathBuf> = std::fs::read_dir(&dir)
                 .map(|rd| rd.filter_map(|e| e.ok()).map(|e| e.path()).collect())
                 .unwrap_or_default();
@@ -688,7 +692,7 @@ pub fn supervise(prop: &dyn Property, tier: Tier, seed: u64) -> i32 {
     let nshards = prop.shards(tier).max(1);
     let exe = std::env::current_exe().expect("current exe");
     let scratch = make_scratch(&format!("sup-{}", id));
-    let shim = Path::new(VERIF_DIR).join("build/libvshim.so");
+    let shim = verif_dir().join("build/libvshim.so");
     let known = Known::load();
 
     let mut children = Vec::new();
@@ -889,7 +893,7 @@ pub fn supervise(prop: &dyn Property, tier: Tier, seed: u64) -> i32 {
         "wall_s": wall,
         "violations": total.violations.len(),
     });
-    let evdir = Path::new(VERIF_DIR).join("evidence");
+    let evdir = verif_dir().join("evidence");
     let _ = std::fs::create_dir_all(&evdir);
     let evpath = evdir.join(format!("{}.json", id));
     let mut f = std::fs::File::create(&evpath).expect("evidence file");
@@ -973,7 +977,7 @@ pub fn replay_main(props: &[&dyn Property], path: &Path) -> i32 {
         let st = Command::new(exe)
             .arg("replay")
             .arg(path)
-            .env("LD_PRELOAD", Path::new(VERIF_DIR).join("build/libvshim.so"))
+            .env("LD_PRELOAD", verif_dir().join("build/libvshim.so"))
             .env("VH_REEXEC", "1")
             .status();
         return st.ok().and_then(|s| s.code()).unwrap_or(2);
